@@ -502,6 +502,8 @@ func (a *FuncAn) binop(x *ssa.BinOp, bits int, uns bool) Lin {
 			a.lemma(Scale(id, -1))
 			a.lemma(Scale(r, -1).plus(k - 1))
 			a.lemma(r.plus(k - 1))
+			// integer rounding: a positive multiple of k is at least k
+			a.conds = append(a.conds, condLemma{pre: []Lin{X.plus(-1), Scale(r, -1)}, post: []Lin{X.plus(-k), AtomLin(q).plus(-1)}, why: "x >= 1 and x%k == 0 imply x >= k"})
 			if X.synNonNeg() {
 				at.NonNeg = true
 			} else {
